@@ -657,6 +657,12 @@ func mergeWorker(dst, src *workerResult) {
 }
 
 func panicInHarness(se string) bool {
+	// A panic the simulated backend raised on purpose inside a callback and that went through
+	// library frames all the way up: the library did not contain a backend panic - its crash,
+	// not the harness's.
+	if strings.Contains(firstPanicLine(se), "simulated backend panic") && strings.Contains(se, "emersion/go-smtp.(*") {
+		return false
+	}
 	// the first frame after the panic header tells who panicked
 	i := strings.Index(se, "goroutine ")
 	if i < 0 {
